@@ -434,7 +434,19 @@ def weight_wiring():
     return rows
 
 
-GROUPS = ["cancel", "mismatch", "exit", "setdef", "escape", "signals", "sighandler", "termchild", "termexit", "delayloop", "drainloop", "drainexit", "drainalways", "verdict", "weights", "mainloop", "interval", "placeholders", "xml"]
+def retry_wiring():
+    """imp.rs / executor.rs: how a retry policy forced on the command line reaches the attempt loop."""
+    imp = re.sub(r"\s+", " ", strip_comments(read("nextest-runner/src/runner/imp.rs")))
+    ex = re.sub(r"\s+", " ", strip_comments(read("nextest-runner/src/runner/executor.rs")))
+    return [
+        ("build: the forced policy is handed on as given", re.search(r"force_retries: self\.retries,", imp) is not None),
+        ("execute: the forced policy is given to the executor", re.search(r"self\.capture_strategy, self\.force_retries, \)", imp) is not None or re.search(r"self\.force_retries,", imp) is not None),
+        ("run_test_instance: the forced policy, where there is one, replaces the test's own", re.search(r"let retry_policy = self\.force_retries\.unwrap_or_else\(\|\| settings\.retries\(\)\);", ex) is not None),
+        ("run_test_instance: attempts = retries + 1, delays from that same policy", re.search(r"let total_attempts = retry_policy\.count\(\) \+ 1; let mut backoff_iter = BackoffIter::new\(retry_policy\);", ex) is not None),
+    ]
+
+
+GROUPS = ["cancel", "mismatch", "exit", "setdef", "escape", "signals", "sighandler", "termchild", "termexit", "delayloop", "drainloop", "drainexit", "drainalways", "verdict", "weights", "retries", "mainloop", "interval", "placeholders", "xml"]
 
 
 def group_lines(g):
@@ -514,6 +526,10 @@ def group_lines(g):
         rows = weight_wiring()
         return ["/-- runner/imp.rs: the width of the run and the weight of a test, as wired -/",
                 "def weightWiring : List (String × Bool) := [" + ", ".join(f'("{a}", {"true" if b else "false"})' for a, b in rows) + "]"]
+    if g == "retries":
+        rows = retry_wiring()
+        return ["/-- imp.rs / executor.rs: the path of a forced retry policy, as wired -/",
+                "def retryWiring : List (String × Bool) := [" + ", ".join(f'("{a}", {"true" if b else "false"})' for a, b in rows) + "]"]
     if g == "mainloop":
         keys = {"Stop": r"SignalRequest::Stop\(\w+\)", "Continue": r"SignalRequest::Continue"}
         arms = request_arms(strip_comments(read("nextest-runner/src/runner/executor.rs")), "handle_signal_request", keys)
